@@ -117,12 +117,12 @@ func (o oneByte) Read(p []byte) (int, error) {
 func iotest1(s string) io.Reader { return oneByte{strings.NewReader(s)} }
 
 var names = []string{"a", "b", "a b", "a  b", "é", "d/a", "a\nb", "b  a", "A", "a/"}
-var contents = []string{"", "x", "y", "x\n", "x  a\n"}
+var contents = []string{"", "x", "y", "x\n", "x  a\n", strings.Repeat("0123456789abcdef", 4097) + "z"}
 
 func Run(r *fw.Run) {
 	maxSet := r.Pick(3, 4)
 	nn := r.Pick(10, 10)
-	nc := r.Pick(5, 5)
+	nc := r.Pick(6, 6)
 	ns, cs := names[:nn], contents[:nc]
 	r.Bounds["names"] = ns
 	r.Bounds["contents"] = cs
